@@ -191,21 +191,30 @@ func (u *upstream) chooseHost(routingKey []byte, req *simpleRequest) (string, er
 	return candidates[i], nil
 }
 
-func (u *upstream) MakeRequestToHost(addr string, req *simpleRequest) {
+// MakeRequestToHost sends the requests to the node at addr; several requests are
+// enqueued on its connection back to back, with nothing else between them.
+func (u *upstream) MakeRequestToHost(addr string, reqs ...*simpleRequest) {
 	// request metrics
-	u.stats.RqTotal.Inc()
-	req.RegisterHook(func(req *simpleRequest) {
-		if req.Response().Type == Error {
-			u.stats.RqFailureTotal.Inc()
-		} else {
-			u.stats.RqSuccessTotal.Inc()
-		}
-		u.stats.RqDurationMs.Record(uint64(req.Duration() / time.Millisecond))
-	})
+	for _, req := range reqs {
+		u.stats.RqTotal.Inc()
+		req.RegisterHook(func(req *simpleRequest) {
+			if req.Response().Type == Error {
+				u.stats.RqFailureTotal.Inc()
+			} else {
+				u.stats.RqSuccessTotal.Inc()
+			}
+			u.stats.RqDurationMs.Record(uint64(req.Duration() / time.Millisecond))
+		})
+	}
 
+	fail := func(msg string) {
+		for _, req := range reqs {
+			req.SetResponse(newError(msg))
+		}
+	}
 	select {
 	case <-u.quit:
-		req.SetResponse(newError(upstreamExited))
+		fail(upstreamExited)
 		return
 	default:
 	}
@@ -216,11 +225,11 @@ func (u *upstream) MakeRequestToHost(addr string, req *simpleRequest) {
 		// the node may have been replaced (failover): have a look at the layout,
 		// instead of failing every request until the periodic refresh.
 		u.triggerSlotsRefresh()
-		req.SetResponse(newError(err.Error()))
+		fail(err.Error())
 		return
 	}
 	// TODO: detect client status
-	c.Send(req)
+	c.Send(reqs...)
 }
 
 func (u *upstream) getClient(addr string) (*client, error) {
@@ -370,8 +379,10 @@ func (u *upstream) handleRedirection(req *simpleRequest, resp *RespValue) {
 			*newBulkString(ASKING),
 		))
 		askingReq.abort = req.abort
-		u.MakeRequestToHost(hostAddr, askingReq)
-		u.MakeRequestToHost(hostAddr, req)
+		// ASKING only counts for the next command on the connection, which is
+		// shared with all other traffic for that node: the two are enqueued as
+		// one unit, nothing may get in between.
+		u.MakeRequestToHost(hostAddr, askingReq, req)
 	default:
 		// the caller matches the prefix with Unicode case folding ("a\u017fk" folds
 		// to "ask" but does not lower-case to it): never leave the request unanswered.
@@ -583,6 +594,9 @@ type client struct {
 	// lock, drained is set under the write lock once both loops have exited.
 	sendMu  sync.RWMutex
 	drained bool
+	// groupMu keeps single sends (read lock) out of a group of requests that
+	// must reach the node back to back (write lock).
+	groupMu sync.RWMutex
 }
 
 func newClient(conn net.Conn, cfg *config, logger log.Logger, options ...clientOption) (*client, error) {
@@ -672,7 +686,22 @@ func (c *client) Start() {
 	close(c.done)
 }
 
-func (c *client) Send(req *simpleRequest) {
+// Send enqueues the requests. More than one (ASKING and the command it is for)
+// are enqueued under groupMu, so that no other sender gets in between them.
+func (c *client) Send(reqs ...*simpleRequest) {
+	if len(reqs) > 1 {
+		c.groupMu.Lock()
+		defer c.groupMu.Unlock()
+	} else {
+		c.groupMu.RLock()
+		defer c.groupMu.RUnlock()
+	}
+	for _, req := range reqs {
+		c.send(req)
+	}
+}
+
+func (c *client) send(req *simpleRequest) {
 	c.sendMu.RLock()
 	if c.drained {
 		c.sendMu.RUnlock()
